@@ -5,10 +5,15 @@
   `Model.Pipeline` in which no leader lookup ever names a worker twice (`HandoverChain`, decidable; the trace
   replay checks it on every replayed real run).  Any number of old workers may drain concurrently with the
   current one; their steps, leader moves, lookup failures, fault verdicts are unrestricted.
+  The model includes `Choice.closeW`: the current worker, holding nothing of the partition, is closed by the
+  connection error of a request that carries other partitions' messages (what a partition sees of a SHARED worker;
+  Lemmas/C02chClose.lean) - with it the projection of a run with several partitions on one partition that satisfies
+  `HandoverChain` is a run of this model (the replay counts them: sys-projected-inside-proved-scope).
   Proof: the invariant `Lemmas.C02sys.GoodC` - the single-worker view with the lanes of the old workers (disjoint
   retry-level bands, oldest first) between the retries queue and the tail of the current worker.
 -/
 import SaramaVerif.Lemmas.C02chRun
+import SaramaVerif.Lemmas.C02chClose
 import SaramaVerif.Props.C02sys
 
 namespace Props.C02sys
@@ -93,6 +98,7 @@ theorem chain_step {M : Nat} (hM : 1 ≤ M) {seen : List Nat} {s s' : Sys} (c : 
   | moveLeader b =>
     simp only [sysStep, Option.some.injEq] at hs
     subst hs; exact keep v (goodC_moveLeader hg b)
+  | closeW w => obtain ⟨v', hg'⟩ := goodC_closeW hg hs; exact keep v' hg'
 
 theorem chain_run {M : Nat} (hM : 1 ≤ M) (cs : List Choice) : ∀ {seen : List Nat} {s s' : Sys},
     (cs.flatMap lookupsOf).Nodup → (∀ w ∈ cs.flatMap lookupsOf, w ∉ seen) → CInv M seen s →
